@@ -4,6 +4,8 @@
 //	  SKIP parse|compile
 //	  RT det=<0|1> stable=<0|1> unmarshal=<ok|ERR:..|PANIC:..> same_dump=<0|1> orig=<outcome> reloaded=<outcome> defs=<flat code defs>
 //
+//	c17obs life: histories on one growing code, see life.go
+//
 // outcome = OK <value> TRACE <print trace> | ERR <class> TRACE ... ; defs = the marshalled code objects in
 // order: id|name|parent|funcid|fnrefs(id:name,...) joined by ';' (hex fields), used to tie the Coq model.
 package main
@@ -238,6 +240,10 @@ func linkage(code *compiler.Code) (string, string) {
 }
 
 func main() {
+	if len(os.Args) > 1 && os.Args[1] == "life" {
+		lifeMain()
+		return
+	}
 	w := bufio.NewWriterSize(os.Stdout, 1<<20)
 	defer w.Flush()
 	sc := bufio.NewScanner(os.Stdin)
